@@ -194,34 +194,64 @@ mod kani_harness {
 	inst!(c01_entries_serialize_2, c01_serialize, [2, 1], 5);
 	inst!(c01_entries_serialize_3, c01_serialize, [3, 1], 6);
 
-	// C16: a directory written by an independent encoder (run lengths > 1, shared offsets, leaf entries) is decoded exactly
+	// C16: a directory written by an independent encoder (run lengths > 1, shared offsets, leaf entries) is decoded exactly.
+	// All fields < 2^7, so every varint is ONE byte and the encoded length is the constant 1 + 4 N (a varint writer with a
+	// data-dependent length makes every later buffer operation symbolic; the varint codec itself is decided for all u64 by
+	// c11_varint_roundtrip and the multi-byte case by c16_entries_decode_1w).
 	fn c16_decode<const N: usize, const VB: u32>() {
 		let e = small_entries::<N, VB>();
 		let mut out: Vec<u8> = Vec::with_capacity(1 + 8 * N);
-		put_varint(&mut out, N as u64);
-		let mut last = 0u64;
-		let mut i = 0;
-		while i < N {
-			put_varint(&mut out, e.entries[i].tile_id - last);
-			last = e.entries[i].tile_id;
-			i += 1;
-		}
-		i = 0;
-		while i < N {
-			put_varint(&mut out, e.entries[i].run_length as u64);
-			i += 1;
-		}
-		i = 0;
-		while i < N {
-			put_varint(&mut out, e.entries[i].range.length);
-			i += 1;
-		}
-		i = 0;
 		let use_zero: bool = kani::any(); // the encoder may or may not use the "contiguous" shorthand
-		while i < N {
-			let contiguous = i > 0 && e.entries[i].range.offset == e.entries[i - 1].range.offset + e.entries[i - 1].range.length;
-			put_varint(&mut out, if contiguous && use_zero { 0 } else { e.entries[i].range.offset + 1 });
-			i += 1;
+		if VB == 1 {
+			out.push(N as u8);
+			let mut last = 0u64;
+			let mut i = 0;
+			while i < N {
+				out.push((e.entries[i].tile_id - last) as u8);
+				last = e.entries[i].tile_id;
+				i += 1;
+			}
+			i = 0;
+			while i < N {
+				out.push(e.entries[i].run_length as u8);
+				i += 1;
+			}
+			i = 0;
+			while i < N {
+				out.push(e.entries[i].range.length as u8);
+				i += 1;
+			}
+			i = 0;
+			while i < N {
+				let contiguous = i > 0 && e.entries[i].range.offset == e.entries[i - 1].range.offset + e.entries[i - 1].range.length;
+				out.push(if contiguous && use_zero { 0 } else { (e.entries[i].range.offset + 1) as u8 });
+				i += 1;
+			}
+		} else {
+			put_varint(&mut out, N as u64);
+			let mut last = 0u64;
+			let mut i = 0;
+			while i < N {
+				put_varint(&mut out, e.entries[i].tile_id - last);
+				last = e.entries[i].tile_id;
+				i += 1;
+			}
+			i = 0;
+			while i < N {
+				put_varint(&mut out, e.entries[i].run_length as u64);
+				i += 1;
+			}
+			i = 0;
+			while i < N {
+				put_varint(&mut out, e.entries[i].range.length);
+				i += 1;
+			}
+			i = 0;
+			while i < N {
+				let contiguous = i > 0 && e.entries[i].range.offset == e.entries[i - 1].range.offset + e.entries[i - 1].range.length;
+				put_varint(&mut out, if contiguous && use_zero { 0 } else { e.entries[i].range.offset + 1 });
+				i += 1;
+			}
 		}
 		let blob = Blob::from(out);
 		let back = ok(EntriesV3::from_blob(&blob));
